@@ -35,44 +35,71 @@ func init() {
 			defer func() { _ = os.Chdir(old) }()
 		}
 		hs := pymcp.NewHandlerSet(pymcp.NewDependencies(nil, ""))
-		var req mcpgo.CallToolRequest
-		req.Params.Name = in.Tool
-		req.Params.Arguments = in.Args
-		ctx := context.Background()
-		var res *mcpgo.CallToolResult
-		var err error
-		switch in.Tool {
-		case "analyze_code":
-			res, err = hs.HandleAnalyzeCode(ctx, req)
-		case "check_complexity":
-			res, err = hs.HandleCheckComplexity(ctx, req)
-		case "detect_clones":
-			res, err = hs.HandleDetectClones(ctx, req)
-		case "check_coupling":
-			res, err = hs.HandleCheckCoupling(ctx, req)
-		case "check_cohesion":
-			res, err = hs.HandleCheckCohesion(ctx, req)
-		case "find_dead_code":
-			res, err = hs.HandleFindDeadCode(ctx, req)
-		case "get_health_score":
-			res, err = hs.HandleGetHealthScore(ctx, req)
-		default:
-			return nil, fmt.Errorf("unknown tool %s", in.Tool)
+		return mcpCall(hs, in.Tool, in.Args), nil
+	}
+	// mcp_session: several calls on ONE HandlerSet, in order — what a running pyscn-mcp server does (cmd/pyscn-mcp creates a single handler set)
+	handlers["mcp_session"] = func(raw json.RawMessage) (any, error) {
+		var in struct {
+			Calls []mcpIn
+			Cwd   string
 		}
-		if err != nil {
-			return map[string]any{"go_error": err.Error()}, nil
+		if err := json.Unmarshal(raw, &in); err != nil {
+			return nil, err
 		}
-		out := map[string]any{"is_error": res.IsError}
-		for _, c := range res.Content {
-			if tc, ok := c.(mcpgo.TextContent); ok {
-				var v any
-				if json.Unmarshal([]byte(tc.Text), &v) == nil {
-					out["json"] = v
-				} else {
-					out["text"] = tc.Text
-				}
+		if in.Cwd != "" {
+			old, _ := os.Getwd()
+			if err := os.Chdir(in.Cwd); err != nil {
+				return nil, err
+			}
+			defer func() { _ = os.Chdir(old) }()
+		}
+		hs := pymcp.NewHandlerSet(pymcp.NewDependencies(nil, ""))
+		outs := []any{}
+		for _, c := range in.Calls {
+			outs = append(outs, mcpCall(hs, c.Tool, c.Args))
+		}
+		return map[string]any{"outs": outs}, nil
+	}
+}
+
+func mcpCall(hs *pymcp.HandlerSet, tool string, args map[string]any) map[string]any {
+	var req mcpgo.CallToolRequest
+	req.Params.Name = tool
+	req.Params.Arguments = args
+	ctx := context.Background()
+	var res *mcpgo.CallToolResult
+	var err error
+	switch tool {
+	case "analyze_code":
+		res, err = hs.HandleAnalyzeCode(ctx, req)
+	case "check_complexity":
+		res, err = hs.HandleCheckComplexity(ctx, req)
+	case "detect_clones":
+		res, err = hs.HandleDetectClones(ctx, req)
+	case "check_coupling":
+		res, err = hs.HandleCheckCoupling(ctx, req)
+	case "check_cohesion":
+		res, err = hs.HandleCheckCohesion(ctx, req)
+	case "find_dead_code":
+		res, err = hs.HandleFindDeadCode(ctx, req)
+	case "get_health_score":
+		res, err = hs.HandleGetHealthScore(ctx, req)
+	default:
+		return map[string]any{"go_error": fmt.Sprintf("unknown tool %s", tool)}
+	}
+	if err != nil {
+		return map[string]any{"go_error": err.Error()}
+	}
+	out := map[string]any{"is_error": res.IsError}
+	for _, c := range res.Content {
+		if tc, ok := c.(mcpgo.TextContent); ok {
+			var v any
+			if json.Unmarshal([]byte(tc.Text), &v) == nil {
+				out["json"] = v
+			} else {
+				out["text"] = tc.Text
 			}
 		}
-		return out, nil
 	}
+	return out
 }
